@@ -160,27 +160,34 @@ def end_to_end(v):
         finally:
             w.close()
     # (3) a rekey whose selectors differ from those of the replaced SA is refused; (4) widened / mode-flipped responses are never installed
-    w = wd.World(seed=common.SEED)
-    try:
-        w.establish('A')
-        a, b = w.sas('A')[0], w.sas('B')[0]
-        req = bytes(w.expire('A', bytes(a.child_sas[0].inbound_spi), False))
-        m = W.dec_message(req, probes.keys_of(a.my_crypto))
-        inner = []
-        for p in m['inner']:
-            p = dict(p)
-            if p['t'] == W.TSI:
-                p['ts'] = [dict(p['ts'][0], eaddr=bytes([192, 168, 0, 200]))]
-            inner.append(p)
-        forged = probes.seal(a, 36, False, m['mid'], inner)
-        before = len(w.kernel['B'].sad)
-        res = w.dispatch('B', forged, 'A')
-        mm = W.dec_message(bytes(res), probes.keys_of(b.my_crypto))
-        n += 1
-        if 'TS_UNACCEPTABLE' not in [W.notify_name(p['ntype']) for p in mm['inner'] if p['t'] == W.NOTIFY] or len(w.kernel['B'].sad) != before:
-            v.violation('a rekey with selectors other than those of the replaced SA is accepted', {}, signature={'component': 'e2e:rekey_ts'})
-    finally:
-        w.close()
+    #     ... and so is a rekey that asks for the other mode than the policy's (the rules for a request hold for a rekey request, too)
+    for mode, edit in (('transport', 'selectors'), ('tunnel', 'selectors'), ('transport', 'mode'), ('tunnel', 'mode')):
+        w = wd.World(seed=common.SEED, opts={'mode': mode})
+        try:
+            w.establish('A')
+            a, b = w.sas('A')[0], w.sas('B')[0]
+            req = bytes(w.expire('A', bytes(a.child_sas[0].inbound_spi), False))
+            m = W.dec_message(req, probes.keys_of(a.my_crypto))
+            inner = []
+            for p in m['inner']:
+                p = dict(p)
+                if edit == 'selectors' and p['t'] == W.TSI:
+                    p['ts'] = [dict(p['ts'][0], eaddr=bytes([192, 168, 0, 200]))]
+                if edit == 'mode' and p['t'] == W.NOTIFY and p['ntype'] == 16391:
+                    continue                                   # transport policy: the rekey request asks for tunnel mode
+                inner.append(p)
+            if edit == 'mode' and mode == 'tunnel':
+                inner.insert(0, {'t': W.NOTIFY, 'proto': 0, 'spi': b'', 'ntype': 16391, 'data': b''})
+            forged = probes.seal(a, 36, False, m['mid'], inner)
+            before = len(w.kernel['B'].sad)
+            res = w.dispatch('B', forged, 'A')
+            mm = W.dec_message(bytes(res), probes.keys_of(b.my_crypto))
+            n += 1
+            if 'TS_UNACCEPTABLE' not in [W.notify_name(p['ntype']) for p in mm['inner'] if p['t'] == W.NOTIFY] or len(w.kernel['B'].sad) != before:
+                v.violation(f'a rekey ({mode} policy) whose {edit} differ from those of the replaced SA / the policy is accepted', {'installed': len(w.kernel['B'].sad) - before},
+                            signature={'component': 'e2e:rekey_' + ('ts' if edit == 'selectors' else 'mode')})
+        finally:
+            w.close()
     # (3b) an authentic requester with ILL-FORMED selectors (Selectors.tla IllFormed: reversed port range - 65535-0 is the wire form of OPAQUE -, reversed
     #      address range) against a policy restricted to one port / one network: refused, nothing installed - never "any port" or a wide network
     for name, edit in (('ports 65535-0', dict(sport=65535, eport=0)), ('ports 81-80', dict(sport=81, eport=80)),
